@@ -99,6 +99,62 @@ for conn in CONNS:
                     chk.violation(f'connector.{conn}', f'told-established-without-asking-upstream:{cls_host}', f'{client} -> {conn}: {host!r}:{port}', rp)
                 if len(samples) < 4 and kind == 'v6':
                     samples.append(rp)
+# ---- UDP frame headers: every datagram of a one-to-many association goes to the destination ITS header names - by
+#      name or by address, whatever the datagrams before it named. SOCKS5 UDP ASSOCIATE (and the same association
+#      through an http hop) -> direct connector; two sinks A and B; all orders of four datagrams {name:A, addr:B,
+#      name:B, addr:A} (`localhost` is answered from /etc/hosts)
+def udp_headers(via_hop):
+    import itertools as _it
+    A, B = UdpOrigin(reply=False), UdpOrigin(reply=False)
+    q = {k: free_port() for k in ('socks', 'api', 'hop', 'hapi')}
+    hop = None
+    if via_hop:
+        hop = Proxy({'listeners': [{'name': 'http', 'bind': f"127.0.0.1:{q['hop']}"}], 'connectors': [{'name': 'direct'}], 'rules': [{'target': 'direct'}],
+                     'metrics': {'bind': f"127.0.0.1:{q['hapi']}", 'ui': None}}, 'c03h')
+        hop.api_port = q['hapi']
+        if not hop.start([q['hop'], q['hapi']]):
+            machinery('udp headers: hop did not start')
+    conn = {'name': 'c', 'type': 'http', 'server': '127.0.0.1', 'port': q['hop']} if via_hop else {'name': 'c', 'type': 'direct'}
+    pu = Proxy({'listeners': [{'name': 'socks', 'bind': f"127.0.0.1:{q['socks']}"}], 'connectors': [conn], 'rules': [{'target': 'c'}],
+                'metrics': {'bind': f"127.0.0.1:{q['api']}", 'ui': None}}, 'c03u')
+    pu.api_port = q['api']
+    if not pu.start([q['socks'], q['api']]):
+        machinery('udp headers: proxy did not start')
+    out = []
+    try:
+        dests = [('localhost', 'A'), ('127.0.0.1', 'B'), ('localhost', 'B'), ('127.0.0.1', 'A')]
+        for order in _it.permutations(range(4)):
+            ctrl, r = socks5_connect(q['socks'], '0.0.0.0', 0, cmd=3, timeout=5)
+            if r['rep'] != 0 or len(r['reply']) < 10:
+                out.append((order, 'association-refused'))
+                continue
+            relay = ('127.0.0.1', struct.unpack('>H', r['reply'][8:10])[0])
+            u = socket.socket(socket.AF_INET, socket.SOCK_DGRAM); u.bind(('127.0.0.1', 0))
+            tag = ''.join(map(str, order)) + ('h' if via_hop else 'd')
+            want = {'A': [], 'B': []}
+            for i in order:
+                host, sink = dests[i]
+                port = (A if sink == 'A' else B).port
+                payload = f'{tag}-{i}-{host}-{sink}'.encode()
+                u.sendto(b'\0\0\0' + socks5_addr(host, port) + payload, relay)
+                want[sink].append(payload)
+                time.sleep(0.03)
+            time.sleep(0.25)
+            got = {k: [d for (_, d, _) in list(o.rx) if d.startswith(tag.encode() + b'-')] for k, o in (('A', A), ('B', B))}
+            u.close(); ctrl.close()
+            out.append((order, 'ok' if got == want else f"A got {[x.decode() for x in got['A']]}, B got {[x.decode() for x in got['B']]}"))
+    finally:
+        pu.stop(); A.stop(); B.stop()
+        if hop:
+            hop.stop()
+    return out
+for via_hop in (False, True):
+    for order, verdict in udp_headers(via_hop):
+        evals += 1
+        distinct.add(('udp-headers', via_hop, verdict == 'ok'))
+        if verdict != 'ok':
+            chk.violation('udp.frame-header', f'datagram-sent-to-another-destination:{"via-http-hop" if via_hop else "direct"}', f'SOCKS5 UDP association{" through an http hop" if via_hop else ""}: datagrams named (in this order) {[["name:A", "addr:B", "name:B", "addr:A"][i] for i in order]}: {verdict}', {'order': list(order), 'via_hop': via_hop})
+
 if not px.alive():
     chk.violation('process', 'proxy-died', f'exit {px.returncode()}: {px.log()[-300:]}', {})
 px.stop(); uph.stop(); ups.stop()
@@ -106,5 +162,5 @@ if evals < 150 or len(distinct) < 10:
     machinery(f'vacuous: evals={evals} distinct={len(distinct)}')
 cov = {'evaluations': evals, 'distinct_nontrivial': len(distinct), 'transitions': evals, 'traces_validated_against_impl': evals,
        'rule': 'real binary: client {socks5, http} x real connector {http, socks5, socks4} towards recording fake upstreams x destinations (7 IPv4 incl. 0.0.0.x, 10 IPv6 incl. ::/96 and ::ffff:/96, 16 host names incl. blanks, colons, brackets, NUL, 255 bytes) x ports {80, 0, 1, 65535} for three of them; the upstream is asked for exactly that destination or for nothing',
-       'schedule_control': 'kernel', 'samples': samples}
+       'udp_frame_headers': 'SOCKS5 UDP association -> direct (and through an http hop): all 24 orders of four datagrams {name:A, addr:B, name:B, addr:A} reach exactly the sink their header names', 'schedule_control': 'kernel', 'samples': samples}
 sys.exit(chk.finish('model_checking', cov, ['E4 part: the fake upstreams decode what they are sent the way lenient real servers do (last colon for CONNECT, SOCKS4a marker for 0.0.0.x)']))
